@@ -1,0 +1,55 @@
+//go:build verif
+
+// Verification hooks (build tag verif) for property C07: field accessors of the meta-index entries and chunk metas the
+// real reader returns, and the whole-file writer with a configurable number of chunk metas per meta-index block. No
+// behaviour of its own.
+package immutable
+
+import (
+	"fmt"
+
+	"github.com/openGemini/openGemini/lib/config"
+	"github.com/openGemini/openGemini/lib/record"
+)
+
+// VerifMetaIndexFields returns the fields of a meta-index entry.
+func VerifMetaIndexFields(m *MetaIndex) (id uint64, minTime, maxTime, offset int64, count, size uint32) {
+	return m.id, m.minTime, m.maxTime, m.offset, m.count, m.size
+}
+
+// VerifChunkMetaRanges returns the series id and the per-segment time ranges of a chunk meta.
+func VerifChunkMetaRanges(cm *ChunkMeta) (sid uint64, ranges [][2]int64) {
+	for i := range cm.timeRange {
+		ranges = append(ranges, [2]int64{cm.timeRange[i].minTime(), cm.timeRange[i].maxTime()})
+	}
+	return cm.sid, ranges
+}
+
+// VerifWriteTSSPOpt is VerifWriteTSSP with the number of chunk metas per meta-index block set to metaItemCount when
+// it is positive (Config.maxChunkMetaItemCount; the store default is util.DefaultMaxChunkMetaItemCount).
+func VerifWriteTSSPOpt(dir string, seq uint64, ids []uint64, recs []*record.Record, maxRowsPerSegment, metaItemCount int) (string, error) {
+	lock := ""
+	conf := NewTsStoreConfig()
+	conf.SetMaxRowsPerSegment(maxRowsPerSegment)
+	if metaItemCount > 0 {
+		conf.maxChunkMetaItemCount = metaItemCount
+	}
+	fileName := NewTSSPFileName(seq, 0, 0, 0, true, &lock)
+	msb := NewMsBuilder(dir, "mst", &lock, conf, len(ids), fileName, 0, nil, 2, config.TSSTORE, nil, 0)
+	for i, id := range ids {
+		if err := msb.WriteData(id, recs[i]); err != nil {
+			return "", err
+		}
+	}
+	if err := WriteIntoFile(msb, false, false, nil); err != nil {
+		return "", err
+	}
+	if len(msb.Files) != 1 {
+		return "", fmt.Errorf("%d files", len(msb.Files))
+	}
+	path := msb.Files[0].Path()
+	if err := msb.Files[0].Close(); err != nil {
+		return "", err
+	}
+	return path, nil
+}
